@@ -340,7 +340,7 @@ var errorFormat = map[Code]string{
 	ErrIncorrectExponentValue:   "Incorrect exponent value",
 
 	// example & ast
-	ErrRegexExample:          "generate example for Regex type: %w",
+	ErrRegexExample:          "generate example for Regex type: %v",
 	ErrCantCollectRulesTypes: `Can't collect rules: "types" constraint is required with "or" constraint. Learn more about the "or" rule here: https://jsight.io/docs/jsight-schema-0-3#rule-or`,
 
 	// tests
